@@ -2,6 +2,8 @@ package disco
 
 import (
 	"fmt"
+	"os"
+	"path/filepath"
 	"sort"
 	"strings"
 	"time"
@@ -92,7 +94,16 @@ func c20Bubble(tp *core.Tape, e *core.Env) (hist []string) {
 	}
 	jobs := []string{"ja"}
 	dropRule := true // whether the job's metric relabel rule (drop drop_.*) is in force
-	do("reload", func() interface{} { return w.Cfg.ReloadFromRaw([]byte(ConfigTextRule(jobs, dropRule))) })
+	// optionally the job's client cannot be built at first: its CA file does not exist yet
+	caFile, caMissing := "", false
+	if tp.Bool("ca_file_missing_at_first", 1, 5) {
+		caFile = filepath.Join(e.Scratch, fmt.Sprintf("c20-ca-%d.pem", e.RunIndex))
+		_ = os.Remove(caFile)
+		caMissing = true
+		defer os.Remove(caFile)
+		e.Probe("job_client_unbuildable_at_first")
+	}
+	do("reload", func() interface{} { return w.Cfg.ReloadFromRaw([]byte(ConfigTextCA(jobs, dropRule, caFile))) })
 
 	n := 1 + tp.Weighted("targets", 3, 3, 2, 1, 1)
 	var ts []*c20Target
@@ -365,7 +376,12 @@ func c20Bubble(tp *core.Tape, e *core.Env) (hist []string) {
 				e.Probe("reload_changes_metric_relabel")
 			}
 			dr := dropRule
-			do("reload", func() interface{} { return w.Cfg.ReloadFromRaw([]byte(ConfigTextRule(jobs, dr))) })
+			if caMissing && tp.Bool("ca_file_appears", 1, 2) {
+				_ = os.WriteFile(caFile, []byte(testCA), 0o644)
+				caMissing = false
+				e.Probe("job_client_repaired_by_reload")
+			}
+			do("reload", func() interface{} { return w.Cfg.ReloadFromRaw([]byte(ConfigTextCA(jobs, dr, caFile))) })
 			logf("reload keeping ja (drop rule %v)", dropRule)
 			e.Probe("reload_keeps_job")
 		case 5:
@@ -373,6 +389,13 @@ func c20Bubble(tp *core.Tape, e *core.Env) (hist []string) {
 				w.Sch.Release(yields[tp.Choose("yield", len(yields))])
 			}
 		}
+	}
+	if caMissing {
+		_ = os.WriteFile(caFile, []byte(testCA), 0o644)
+		caMissing = false
+		dr := dropRule
+		do("reload", func() interface{} { return w.Cfg.ReloadFromRaw([]byte(ConfigTextCA(jobs, dr, caFile))) })
+		logf("CA file appears, reload")
 	}
 	// quiet phase: probes complete promptly, time passes; afterwards every asked,
 	// still discovered target must have had its successful probe
@@ -423,3 +446,17 @@ func c20Bubble(tp *core.Tape, e *core.Env) (hist []string) {
 	e.AddSim(time.Since(start))
 	return hist
 }
+
+// a self-signed certificate, only so that the CA file parses
+const testCA = `-----BEGIN CERTIFICATE-----
+MIIBhTCCASugAwIBAgIQIRi6zePL6mKjOipn+dNuaTAKBggqhkjOPQQDAjASMRAw
+DgYDVQQKEwdBY21lIENvMB4XDTE3MTAyMDE5NDMwNloXDTE4MTAyMDE5NDMwNlow
+EjEQMA4GA1UEChMHQWNtZSBDbzBZMBMGByqGSM49AgEGCCqGSM49AwEHA0IABD0d
+7VNhbWvZLWPuj/RtHFjvtJBEwOkhbN/BnnE8rnZR8+sbwnc/KhCk3FhnpHZnQz7B
+5aETbbIgmuvewdjvSBSjYzBhMA4GA1UdDwEB/wQEAwICpDATBgNVHSUEDDAKBggr
+BgEFBQcDATAPBgNVHRMBAf8EBTADAQH/MCkGA1UdEQQiMCCCDmxvY2FsaG9zdDo1
+NDUzgg4xMjcuMC4wLjE6NTQ1MzAKBggqhkjOPQQDAgNIADBFAiEA2zpJEPQyz6/l
+Wf86aX6PepsntZv2GYlA5UpabfT2EZICICpJ5h/iI+i341gBmLiAFQOyTDT+/wQc
+6MF9+Yw1Yy0t
+-----END CERTIFICATE-----
+`
